@@ -22,6 +22,11 @@ fn decision_literals() -> gen::VS {
             json!({"or": [0, ""], "label": "x"}), json!({"and": [1, 0], "else": [2]}), json!({"if": [true, 1, 2], "z": 1}), json!({"or": [{"+": ["x"]}], "k": 1}), json!({"and": [{"log": "IN-LITERAL"}], "or": [1]}),
             json!({"?:": [1, 2, 3], "if": [0]}), json!({"or": [], "and": []}),
         ]),
+        // the shapes other languages give a conditional: named branches, clause pairs, case tables - plain literals here
+        select(vec![
+            json!({"if": 0, "then": "yes", "else": "no"}), json!({"if": {"var": "a"}, "then": {"log": "IN-LITERAL"}}), json!({"if": {"==": [1]}, "then": {"in": "x"}, "else": {"substr": []}}), json!({"cond": 1, "then": 2, "else": 3}),
+            json!({"when": true, "then": 1}), json!({"case": 1, "default": 2}), json!([[0, "a"], [1, "b"]]), json!([0, "a"]), json!([1, {"log": "IN-CLAUSE"}]), json!([[1, {"+": ["x"]}]]), json!([true, "yes"]),
+        ]),
         // array literals holding constant operations: written in the rule, yet values - never evaluated or folded
         select(vec![json!([{"+": [1, 2]}]), json!([[{"==": [1, 1]}]]), json!([0, {"cat": ["a", "b"]}]), json!([{"!": [true]}, {"merge": [[1], [2]]}]), json!([{"log": "IN-ARRAY"}]), json!([{"+": ["x"]}])]),
         Just(gen::f(-0.0)),
